@@ -319,7 +319,7 @@ func main() {
 				R.Class(fmt.Sprintf("rfc6979/y(R) odd=%d, s negated=%v", rp.Y.Bit(0), sraw.Cmp(ref.HalfN) > 0), 1)
 			}
 		}
-		if m := runSign(j.d, j.dg, j.sc, j.oi); m != "" {
+		if m := mc.Safe(func() string { return runSign(j.d, j.dg, j.sc, j.oi) }); m != "" {
 			dd := scriptD(j.sc)
 			dd["d"], dd["digest"], dd["opt"], dd["opt_name"] = mc.HexBig(j.d), mc.Hex(j.dg), j.oi, o.name
 			R.Mismatch(fmt.Sprintf("sign/%s/digestlen=%d/admissible=%v", o.name, len(j.dg), adm), "sign", m, dd)
